@@ -203,8 +203,8 @@ class NodalAnalysis(object):
 
         exprs = []
         for node, (lhs, rhs) in self._equations.items():
-            lhs = lhs.subs(subsdict).expr.expand()
-            rhs = rhs.subs(subsdict).expr.expand()
+            lhs = expr(lhs).subs(subsdict).expr.expand()
+            rhs = expr(rhs).subs(subsdict).expr.expand()
             exprs.append(lhs - rhs)
 
         y = []
